@@ -3,6 +3,7 @@ package c14
 import (
 	"bytes"
 	"context"
+	"errors"
 	"fmt"
 	"net"
 	"runtime"
@@ -33,6 +34,11 @@ type call struct {
 	FC    uint8  `json:"fc"`
 	Plan  uint64 `json:"plan"` // seed of the fragmentation / yield plan for this call's reply
 	Pause int    `json:"pause"`
+	// DelayUs: the transport withholds the reply for this long (the call stays in flight)
+	DelayUs int `json:"delay_us,omitempty"`
+	// CancelUs > 0: the call's context is cancelled this many microseconds after the call started
+	// (possibly while it is still waiting for its turn); such a call may fail with the context's error
+	CancelUs int `json:"cancel_us,omitempty"`
 }
 
 type closer struct {
@@ -132,6 +138,8 @@ func runConc(c concCase) harness.Result {
 		cl := plans[r.Addr]
 		return planFor(c.Kind, cl.Plan, r.FC, replyLen)
 	}
+	mon.Abandonable = func(r spec.Req) bool { return plans[r.Addr].CancelUs > 0 }
+	mon.Delay = func(r spec.Req) time.Duration { return time.Duration(plans[r.Addr].DelayUs) * time.Microsecond }
 	var do func(context.Context, packet.Request) (packet.Response, error)
 	var closeFn func() error
 	var connectFn func() error
@@ -226,7 +234,13 @@ func runConc(c concCase) harness.Result {
 					if c.Workers[w][m].Pause > 0 {
 						time.Sleep(time.Duration(c.Workers[w][m].Pause) * 20 * time.Microsecond)
 					}
-					resp, err := do(context.Background(), reqs[w][m])
+					ctx := context.Background()
+					if us := c.Workers[w][m].CancelUs; us > 0 {
+						var cancel context.CancelFunc
+						ctx, cancel = context.WithTimeout(ctx, time.Duration(us)*time.Microsecond)
+						defer cancel()
+					}
+					resp, err := do(ctx, reqs[w][m])
 					results[w][m].resp, results[w][m].err = resp, err
 				}()
 			}
@@ -258,6 +272,9 @@ func runConc(c concCase) harness.Result {
 				return harness.Fail("worker %d call %d panicked: %v", w, m, r.p)
 			}
 			if r.err != nil {
+				if c.Workers[w][m].CancelUs > 0 && (errors.Is(r.err, context.DeadlineExceeded) || errors.Is(r.err, context.Canceled)) {
+					continue // the caller gave up itself
+				}
 				if len(c.Closers) == 0 {
 					return harness.Fail("worker %d call %d (fc%d addr %d) failed although nobody closed the client: %v (arrival order: %s)", w, m, sr.FC, sr.Addr, r.err, arrivalText(arrivals))
 				}
@@ -286,6 +303,15 @@ func runConc(c concCase) harness.Result {
 	if len(c.Closers) > 0 {
 		labels = append(labels, "with-close-connect")
 	}
+	for _, calls := range c.Workers {
+		for _, cl := range calls {
+			if cl.CancelUs > 0 {
+				labels = append(labels, "with-cancelled-callers")
+				goto done
+			}
+		}
+	}
+done:
 	if switches > 0 {
 		labels = append(labels, "interleaved-arrivals")
 	}
@@ -331,11 +357,21 @@ func genConc(t *rapid.T) concCase {
 		fcs = []uint8{3, 4, 15, 16}
 	}
 	total := 0
+	withCancel := rapid.IntRange(0, 2).Draw(t, "with_cancel") == 0
 	for w := 0; w < n; w++ {
 		m := rapid.IntRange(1, maxCalls).Draw(t, "calls")
 		var calls []call
 		for i := 0; i < m; i++ {
-			calls = append(calls, call{FC: rapid.SampledFrom(fcs).Draw(t, "fc"), Plan: rapid.Uint64().Draw(t, "plan"), Pause: rapid.IntRange(0, 5).Draw(t, "pause")})
+			cl := call{FC: rapid.SampledFrom(fcs).Draw(t, "fc"), Plan: rapid.Uint64().Draw(t, "plan"), Pause: rapid.IntRange(0, 5).Draw(t, "pause")}
+			if withCancel && c.Kind != "serial" {
+				if rapid.IntRange(0, 2).Draw(t, "delayed") == 0 {
+					cl.DelayUs = rapid.SampledFrom([]int{500, 1500, 3000}).Draw(t, "delay_us")
+				}
+				if rapid.IntRange(0, 3).Draw(t, "cancellable") == 0 {
+					cl.CancelUs = rapid.SampledFrom([]int{1, 100, 400, 1000, 2500}).Draw(t, "cancel_us")
+				}
+			}
+			calls = append(calls, cl)
 			total++
 		}
 		c.Workers = append(c.Workers, calls)
